@@ -21,6 +21,12 @@ LEVEL = "proof"
 
 WHITELIST_TYPE = {("ctap2::large_blobs::Response", "config")}
 WHITELIST_CONST = {"sizes::LARGE_BLOB_MAX_FRAGMENT_LENGTH"}
+# functions whose bodies legitimately differ: they only initialise / inspect members that a feature adds
+GATED_CODE = {
+    "ctap2::get_info::ResponseBuilder::build": "struct literal lists the get-info-full members",
+    "<ctap2::get_info::CtapOptions as core::default::Default>::default": "struct literal lists the get-info-full members",
+    "ctap2::get_assertion::ExtensionsOutput::is_set": "also tests third_party_payment when that member exists",
+}
 STRING_ENUMS = ["ctap2::get_info::Version", "ctap2::get_info::Extension", "ctap2::get_info::Transport", "ctap2::AttestationStatementFormat"]
 
 
@@ -140,6 +146,44 @@ def run(ctx):
                 continue
             ctx.oblige("C16|const|" + p, ka[p] == kb[p], "constant %s is %s vs %s between %s" % (p, ka[p], kb[p], tag), nontrivial=False)
     ctx.floor("type comparisons over all pairs", n_types, 29 * 60)
+    # ---- code may not read what a feature changes
+    # (1) a constant whose value differs between configurations is never read in a function body (it may size a type)
+    all_consts = {}
+    for cfg, (_, _, k) in sigs.items():
+        for p, v in k.items():
+            all_consts.setdefault(p, {})[cfg] = v
+    varying = {p for p, vs in all_consts.items() if len(set(vs.values())) > 1}
+    ctx.oblige("C16|varying-consts", varying <= WHITELIST_CONST, "constants whose value depends on features: %s (only %s is documented)" % (sorted(varying), sorted(WHITELIST_CONST)))
+    for cfg, F in ctx.facts.items():
+        for f in F.fns:
+            for x in H.walk(f["body"]):
+                if x.get("k") == "path" and (x["res"].get("rk") or "").split(" ")[0].split("{")[0] in ("Const", "AssocConst") and x["res"].get("path") in varying:
+                    ctx.oblige("C16|feature-const-in-code|%s|%s" % (f["path"][:100], x["res"]["path"]), False,
+                               "%s reads %s, whose value depends on the enabled features: the encoding/decoding of members common to all configurations now differs between them" % (f["path"][:120], x["res"]["path"]),
+                               cfg=cfg, where=H.line(x))
+    # (2) hand-written code common to two configurations is the same code (cfg!/cfg-gated statements outside the documented places)
+    def canon(n):
+        if isinstance(n, dict):
+            return {k: canon(v) for k, v in n.items() if k not in ("sp", "pv", "id")}
+        if isinstance(n, list):
+            return [canon(x) for x in n]
+        return n
+    import json as _json
+    bodies = {}
+    for cfg, F in ctx.facts.items():
+        for f in F.fns:
+            if f["pv"] == "user" and f["kind"] in ("Fn", "AssocFn") and not f["path"].startswith("arbitrary::"):
+                bodies.setdefault(f["path"], {})[cfg] = _json.dumps(canon(f["body"]), sort_keys=True)
+    n_fn = 0
+    for path, per in sorted(bodies.items()):
+        if path in GATED_CODE:
+            continue
+        n_fn += 1
+        ref_cfg = sorted(per)[0]
+        diff = [c for c in per if per[c] != per[ref_cfg]]
+        ctx.oblige("C16|same-code|" + path[:120], not diff,
+                   "hand-written function %s compiles to different code in configurations %s vs %s (cfg-dependent logic outside the documented member-initialisation sites)" % (path[:120], ref_cfg, sorted(diff)))
+    ctx.floor("hand-written functions compared across configurations", n_fn, 50)
     if "k0" in sigs and "k7" in sigs:
         s0, s7 = sigs["k0"][0], sigs["k7"][0]
         added = {p: sorted(set(s7[p].get("fields", {})) - set(s0[p].get("fields", {}))) for p in s0 if p in s7 and s0[p]["kind"] == "struct"}
